@@ -190,6 +190,9 @@ func runC14(c *kit.Ctx) {
 			// the close request must not inherit the scan's context: the region client drops
 			// requests whose context is done, and a cancelled scan is exactly when this runs
 			for _, nsr := range kit.Calls(crs, kit.M("hrpc", "", "NewScanRange")) {
+				// routed by the start row of the region that holds the open scanner
+				startRowF := p.Field("", "scanner", "startRow")
+				c.Check(startRowF != nil && isLoadOfField(nsr.Common().Args[2], startRowF), crs, "close-request-routing", nsr.Pos(), "the close request is keyed by s.startRow (the current region)", "the close request is keyed by something other than the scanner's current start row: once the scan has left its first region the close is routed to a region that does not hold the open scanner, and the lease stays open")
 				ca := &ctxAnalysis{p: p, entries: map[*ssa.Function]bool{}}
 				ca.param = map[*ssa.Parameter]map[string]origin{}
 				os := ca.originOf(nsr.Common().Args[0], 0)
@@ -287,6 +290,45 @@ func runC14(c *kit.Ctx) {
 			SkipEdge: nilEdge,
 		})
 		c.Check(e == nil, peek, "renew-cancel-before-fetch", call.Pos(), "a running renewer is cancelled before the next fetch", "fetch can run while the renewer of the previous response is still active: "+c.BlockPath(e))
+	}
+	// a renewer is only started while the scanner is open (Close cannot stop one that starts later)
+	for _, fn := range []*ssa.Function{peek} {
+		kit.Instrs(fn, func(in ssa.Instruction) {
+			g, ok := in.(*ssa.Go)
+			if !ok || !strings.HasSuffix(kit.CalleeName(g), "scanner).renewLoop") {
+				return
+			}
+			// the test must be fresh: no scanner method (fetch, Close, ...) runs between the test's load and the go statement
+			fresh := false
+			for _, f := range kit.FactsAt(g.Block()) {
+				var ld ssa.Value
+				if !f.Pol && isLoadOfField(f.Cond, closedF) {
+					ld = f.Cond
+				} else if u, ok := f.Cond.(*ssa.UnOp); ok && f.Pol && u.Op == token.NOT && isLoadOfField(u.X, closedF) {
+					ld = u.X
+				}
+				li, ok := ld.(ssa.Instruction)
+				if !ok {
+					continue
+				}
+				stale := false
+				kit.Instrs(fn, func(x ssa.Instruction) {
+					call, ok := x.(ssa.CallInstruction)
+					if !ok || x == li {
+						return
+					}
+					if callee := kit.StaticCallee(call); callee != nil && callee.Signature.Recv() != nil && strings.HasSuffix(callee.Signature.Recv().Type().String(), "gohbase.scanner") && x != ssa.Instruction(g) {
+						if kit.Reaches(li, x) && kit.Reaches(x, g) {
+							stale = true
+						}
+					}
+				})
+				if !stale {
+					fresh = true
+				}
+			}
+			c.Check(fresh, fn, "renewer-only-while-open", g.Pos(), "the renew goroutine is started on the not-closed edge", "a lease renewer can be started after the scan has finished: Close returns early on a closed scanner and never cancels it, so it keeps sending renew requests (which, without a scanner id, open new server-side scanners)")
+		})
 	}
 	{
 		e := kit.PathFromEntry(closeFn, kit.PathQuery{
